@@ -173,7 +173,41 @@ func checkC18(p *Prog, r *Report) {
 			}
 		})
 		if operand == nil {
-			r.fail("no type switch found in %s", funcName(cd))
+			// the per-value switch may live in a helper (any) -> (any, bool) whose
+			// first result the loop stores under the same key
+			var h *ssa.Function
+			var hcall *ssa.Call
+			eachInstr(cd, func(ins ssa.Instruction) {
+				if c, ok := ins.(*ssa.Call); ok {
+					if g := c.Common().StaticCallee(); g != nil && g.Blocks != nil && p.inTarget(g) && g.Name() != "" && g.Name()[0] >= 'a' && g.Name()[0] <= 'z' && g.Signature.Results().Len() == 2 && len(c.Common().Args) == 1 {
+						h, hcall = g, c
+					}
+				}
+			})
+			if h != nil {
+				eachInstr(h, func(ins ssa.Instruction) {
+					if ta, ok := ins.(*ssa.TypeAssert); ok && ta.CommaOk && operand == nil {
+						operand = ta.X
+					}
+				})
+			}
+			storesResult := false
+			if hcall != nil {
+				eachInstr(cd, func(ins ssa.Instruction) {
+					if mu, ok := ins.(*ssa.MapUpdate); ok {
+						if ex, ok := mu.Value.(*ssa.Extract); ok && ex.Tuple == ssa.Value(hcall) && ex.Index == 0 {
+							storesResult = true
+						}
+					}
+				})
+			}
+			if operand == nil || !storesResult || operand != ssa.Value(h.Params[0]) {
+				r.fail("no type switch found in %s", funcName(cd))
+			} else {
+				r.fn(funcName(h))
+				cases := kt.checkSwitchCoverage(r, h, operand, funcName(cd), []string{"[]string"}, "a value of that type is silently dropped from the copy", 20)
+				checkCopyArmsRet(p, r, cd, h, cases)
+			}
 		} else {
 			cases := kt.checkSwitchCoverage(r, cd, operand, funcName(cd), []string{"[]string"}, "a value of that type is silently dropped from the copy", 20)
 			// each arm stores under the same key a value derived from the arm's binding (or a fresh copy of it)
@@ -305,6 +339,9 @@ func freshCopyOf(v, orig ssa.Value) bool {
 			for _, b := range g.Blocks {
 				if ret, ok := b.Instrs[len(b.Instrs)-1].(*ssa.Return); ok && len(ret.Results) == 1 {
 					n++
+					if ret.Results[0] == ssa.Value(g.Params[0]) && factSaysNil(b, g.Params[0]) {
+						continue // the nil value is handed back as it is
+					}
 					if !freshCopyOf(ret.Results[0], g.Params[0]) {
 						return false
 					}
@@ -691,13 +728,46 @@ func wrapperCopyValue(val ssa.Value, recv *ssa.Parameter, nameArg ssa.Value, kt 
 			get = o
 		}
 	}
+	// the Get behind a value handed to a clone helper
+	getBehind := func(v ssa.Value) ssa.Value {
+		for i := 0; i < 6 && v != nil; i++ {
+			if isGet(v) {
+				return v
+			}
+			switch x := v.(type) {
+			case *ssa.TypeAssert:
+				v = x.X
+			case *ssa.Extract:
+				v = x.Tuple
+			case *ssa.ChangeType:
+				v = x.X
+			default:
+				return nil
+			}
+		}
+		return nil
+	}
 	for _, o := range origins {
 		if isGet(o) {
 			continue
 		}
+		// cloneX(w.Get(name)): a helper from any to any that passes immutable
+		// kinds through and replaces every mutable kind by a fresh copy
+		if hc, isCall := o.(*ssa.Call); isCall {
+			if h := hc.Common().StaticCallee(); h != nil && h.Blocks != nil && smallHelper(h) && len(h.Params) == 1 && len(hc.Common().Args) == 1 && isGet(hc.Common().Args[0]) {
+				if ok, why := anyCloneHelperOK(h, kt); !ok {
+					return false, why
+				}
+				continue
+			}
+		}
 		mi, ok := o.(*ssa.MakeInterface)
 		if !ok {
 			return false, "a value of unknown origin is stored in the copy"
+		}
+		var behind ssa.Value
+		if hc, isCall := mi.X.(*ssa.Call); isCall && len(hc.Common().Args) == 1 {
+			behind = getBehind(hc.Common().Args[0])
 		}
 		ts := fmtTypeString(mi.X.Type())
 		mut, _ := mutableShare(ts)
@@ -708,6 +778,8 @@ func wrapperCopyValue(val ssa.Value, recv *ssa.Parameter, nameArg ssa.Value, kt 
 		var orig ssa.Value
 		if get != nil {
 			orig = get
+		} else if behind != nil {
+			orig = behind
 		}
 		if !freshCopyFromGet(mi.X, recv) && (orig == nil || !freshCopyOf(mi.X, orig)) {
 			return false, "a " + ts + " taken from the source is stored in the copy without make+copy: the two structs share it"
@@ -810,4 +882,138 @@ func filledByCopy(x *ssa.MakeSlice) bool {
 		}
 	}
 	return false
+}
+
+// checkCopyArmsRet: the same as checkCopyArms for a per-value helper
+// (any) -> (any, bool): in each arm of its switch the value returned with
+// true is the arm's value for immutable kinds and a fresh make+copy for
+// slices and pointers to slices.
+func checkCopyArmsRet(p *Prog, r *Report, cd, h *ssa.Function, cases map[string]*ssa.TypeAssert) {
+	var names []string
+	for n := range cases {
+		names = append(names, n)
+	}
+	sort.Strings(names)
+	for _, ts := range names {
+		ta := cases[ts]
+		var okv, val ssa.Value
+		for _, ref := range referrers(ta) {
+			if ex, isEx := ref.(*ssa.Extract); isEx {
+				if ex.Index == 1 {
+					okv = ex
+				} else {
+					val = ex
+				}
+			}
+		}
+		if okv == nil {
+			continue
+		}
+		var arm *ssa.BasicBlock
+		for _, ref := range referrers(okv) {
+			if ifi, isIf := ref.(*ssa.If); isIf {
+				arm = ifi.Block().Succs[0]
+			}
+		}
+		if arm == nil {
+			continue
+		}
+		stored := 0
+		good := true
+		why := ""
+		eachInstr(h, func(ins ssa.Instruction) {
+			ret, isRet := ins.(*ssa.Return)
+			if !isRet || len(ret.Results) != 2 || !arm.Dominates(ret.Block()) {
+				return
+			}
+			if cb, isC := constBool(ret.Results[1]); !isC || !cb {
+				return
+			}
+			stored++
+			v := ret.Results[0]
+			if mi, isMI := v.(*ssa.MakeInterface); isMI {
+				v = mi.X
+			}
+			mut, _ := mutableShare(ts)
+			if !mut {
+				if v != val && v != ta.X && ret.Results[0] != ta.X {
+					good, why = false, "yields something other than the value of the arm"
+				}
+				return
+			}
+			if !freshCopyOf(v, val) {
+				good, why = false, "yields the source's own "+ts+" (or something not made by make+copy from it)"
+			}
+		})
+		if stored == 0 {
+			good, why = false, "the arm yields nothing"
+		}
+		r.decide(good, "R9.fresh-copy", funcName(cd)+":arm "+ts, p.pos(ta.Pos()), "stores the value (immutable kind) or a fresh make+copy of it",
+			"in the "+ts+" arm of "+funcName(h)+": "+why+"; the copy and its source then share the slice")
+	}
+}
+
+// factSaysNil: block b is only reached when v == nil held.
+func factSaysNil(b *ssa.BasicBlock, v ssa.Value) bool {
+	for _, ef := range expandFacts(factsAt(b)) {
+		bo, ok := ef.Cond.(*ssa.BinOp)
+		if !ok || (bo.Op != token.EQL && bo.Op != token.NEQ) {
+			continue
+		}
+		if ((bo.X == v && isNilConst(bo.Y)) || (bo.Y == v && isNilConst(bo.X))) && (bo.Op == token.EQL) == ef.Truth {
+			return true
+		}
+	}
+	return false
+}
+
+// anyCloneHelperOK: h is func(v any) any; every value it returns is v itself
+// (then h's type switch on v has an arm for every mutable kind of the kind
+// table, so only immutable kinds - or nil slices - flow through) or a fresh
+// make+copy of the asserted value.
+func anyCloneHelperOK(h *ssa.Function, kt *kindTable) (bool, string) {
+	prm := h.Params[0]
+	raw := false
+	n := 0
+	bad := ""
+	eachInstr(h, func(ins ssa.Instruction) {
+		ret, ok := ins.(*ssa.Return)
+		if !ok || len(ret.Results) != 1 {
+			return
+		}
+		n++
+		for _, o := range originsNoBox(ret.Results[0]) {
+			if o == ssa.Value(prm) {
+				raw = true
+				continue
+			}
+			mi, ok := o.(*ssa.MakeInterface)
+			if !ok {
+				bad = "the clone helper " + funcName(h) + " returns a value of unknown origin"
+				continue
+			}
+			ts := fmtTypeString(mi.X.Type())
+			if mut, _ := mutableShare(ts); mut && !freshCopyOf(mi.X, prm) {
+				bad = "the clone helper " + funcName(h) + " returns a " + ts + " that is not a make+copy of the source's: the two structs share it"
+			}
+		}
+	})
+	if bad != "" {
+		return false, bad
+	}
+	if n == 0 {
+		return false, "the clone helper " + funcName(h) + " has no return"
+	}
+	if raw {
+		cases := typeSwitchCases(h, prm)
+		for _, t := range kt.allTypes() {
+			ts := fmtTypeString(t)
+			if mut, _ := mutableShare(ts); mut {
+				if _, ok := cases[ts]; !ok {
+					return false, "the clone helper " + funcName(h) + " passes the source's value through and no arm replaces a " + ts + " by a copy: the two structs share it"
+				}
+			}
+		}
+	}
+	return true, ""
 }
